@@ -15,7 +15,7 @@ func init() {
 			ruleRemoversUpdateTreeSummary(c, "R4")
 			ruleSummaryRendering(c, "R5")
 			ruleRecountFilter(c, "R4c")
-			ruleExhaustiveWalks(c, "R4d", []string{"tree.(*node).countMethods", "tree.(*node).routes"}, "the recount and Routes() walk every node")
+			ruleExhaustiveWalks(c, "R4d", []*ssa.Function{c.A.TreeClean, c.A.TreeRemove, c.A.TreeRoutes}, "the recount and Routes() walk every node")
 			ruleSummaryLockset(c, "R6")
 			ruleRoutesLiveness(c, "R7")
 		},
